@@ -175,7 +175,7 @@ func printVal(v reflect.Value) string {
 //gosym:reach rendered
 func H_C18_letGlobal() {
 	depth := ndChoice("depth", 3)
-	topDecl := ndBool("topDecl")   // whether the top-level scope has already declared something
+	topDecl := ndBool("topDecl")    // whether the top-level scope has already declared something
 	varmap := ndChoice("varmap", 3) // 0: nil VarMap, 1: empty VarMap, 2: VarMap with an entry
 	open, close := "", ""
 	for i := 0; i < depth; i++ {
@@ -412,4 +412,61 @@ func H_C18_scopeOps2() {
 	vfAssert(!apiErr, "the API call succeeds where the syntax does")
 	vfNote(apiOut)
 	vfAssert(apiOut == synOut, "the API operations leave the same bindings as their syntax twins")
+}
+
+// H_C18_yieldBlockNested: a function invoked as a pipe stage (with the piped value as its
+// implicit first argument, or placed by a slot) calls Runtime.YieldBlock before it reads
+// its arguments; the yielded block itself contains a pipeline and a {{ yield content }},
+// and the call site is inside a block that was yielded with content: the arguments read
+// after the nested rendering are the ones read before it, and the nested block sees the
+// enclosing content exactly as {{ yield hdr() }} written at the call site does.
+//
+//gosym:reach rendered
+func H_C18_yieldBlockNested() {
+	withCtx := ndBool("ctx")
+	set := hxSet(nil,
+		"/lib.jet", `{{ block hdr() }}{{ "h" | upper }}{{ . }}{{ yield content }}{{ end }}`,
+		"/m.jet", `{{ import "/lib.jet" }}{{ block outer() }}<{{ "Title" | show }}|{{ "x" | show("pre", _) }}|{{ show("a", "b") }}>{{ end }}{{ yield outer() content }}X{{ end }}`,
+		"/twin.jet", `{{ import "/lib.jet" }}{{ block outer() }}<{{ yield hdr() tctx }}>{{ end }}{{ yield outer() content }}X{{ end }}`,
+	)
+	args := func(a Arguments) string {
+		s := ""
+		for k := 0; k < a.NumOfArguments(); k++ {
+			if k > 0 {
+				s += ","
+			}
+			s += a.Get(k).String()
+		}
+		return s
+	}
+	vars := make(VarMap)
+	vars.SetFunc("show", func(a Arguments) reflect.Value {
+		before := args(a)
+		if withCtx {
+			a.Runtime().YieldBlock("hdr", 7)
+		} else {
+			a.Runtime().YieldBlock("hdr", nil)
+		}
+		return reflect.ValueOf(before + "/" + args(a))
+	})
+	if withCtx {
+		vars.Set("tctx", 7)
+	} else {
+		vars.Set("tctx", "D")
+	}
+	out, err := hxExec(set, "/m.jet", vars, "D")
+	twin, terr := hxExec(set, "/twin.jet", vars, "D")
+	vfReach("rendered")
+	vfAssert(err == nil && terr == nil, "renders")
+	dot := "D"
+	if withCtx {
+		dot = "7"
+	}
+	site := func(c string) string {
+		h := "H" + dot + c
+		return "<" + h + "Title/Title|" + h + "pre,x/pre,x|" + h + "a,b/a,b>"
+	}
+	vfNote(out)
+	vfAssert(twin == "<H"+dot+"><H"+dot+"X>", "(the yield statement at the same place sees the enclosing content)")
+	vfAssert(out == site("")+site("X"), "arguments are stable across the nested rendering; the nested block sees the enclosing content")
 }
